@@ -697,6 +697,27 @@ class C14(PropertyCheck):
             if np.abs(fin - exp).max() > 2e-6:
                 return True, f"{how} differs from the time-ordered product by {np.abs(fin - exp).max():.3e}"
             return False, "analytical propagators, resampled coefficients and solver agree with the time-ordered product"
+        if kind == "reload-shape":
+            spec = {"dims": [2], "seed": 3, "drift": None, "dm": False,
+                    "chans": [{"targets": [0], "tlist": [0.0, 0.5, 1.25], "coeff": [0.5, -0.25]} for _ in range(w["npulses"])]}
+            d = tempfile.mkdtemp(prefix="c14-")
+            try:
+                p, labels, _d, _m = build_processor(spec)
+                load_pulses(p, labels, spec)
+                fn = os.path.join(d, "c.txt")
+                p.save_coeff(fn, inctime=w["inctime"])
+                p2, _l, _d2, _m2 = build_processor(spec)
+                try:
+                    p2.read_coeff(fn, inctime=w["inctime"])
+                except Exception as e:
+                    return True, f"read_coeff raises {type(e).__name__}: {e}"
+                C0 = np.asarray(p.get_full_coeffs())
+                for q, row in zip(p2.pulses, C0):
+                    if np.ndim(q.coeff) != 1 or len(q.coeff) != len(row) or np.abs(q.coeff - row).max() > 1e-15:
+                        return True, f"reloaded coefficient of pulse {q.label!r} is {q.coeff!r}, saved row was {row.tolist()}"
+                return False, "coefficients survive the round trip"
+            finally:
+                shutil.rmtree(d, ignore_errors=True)
         if kind in ("coeffs", "fill", "tlist", "labels"):
             return self._oracle_exact(ctx, w)
         return False, "unknown witness kind"
